@@ -15,7 +15,9 @@ mod c03;
 mod c04;
 mod c05;
 mod c07;
+mod c09;
 mod c10;
+mod c11;
 mod c15;
 mod c16;
 mod c17;
@@ -59,10 +61,14 @@ fn main() {
         "c07-laws" => c07::laws_leg(&args),
         "c20-dump" => c20::dump_cmd(&args),
         "c20-repro" => c20::repro_leg(&args),
+        "c20-small" => c20::small_leg(&args),
         "c16-parsers" => c16::parsers_leg(&args),
         "c16-script" => c16::script_leg(&args),
         "c18-digest" => c18::digest_leg(&args),
         "c18-sync" => c18::sync_leg(&args),
+        "c09-wal" => c09::wal_leg(&args),
+        "c11-recover" => c11::recover_leg(&args),
+        "c08-stamps" => c11::stamps_leg(&args),
         "c10-wal" => c10::wal_leg(&args),
         "c14-codec" => c10::codec_leg(&args),
         "c19-place" => c19::place_leg(&args),
